@@ -10,7 +10,7 @@ tvars == <<vars, tid, l>>
 ASSUME \A t \in 1..N : TLCSet(t, 0)
 TInit == tid \in 1..N /\ l = 2 /\ sc = Traces[tid][1].sc /\ Init0
 Ev == Traces[tid][l]
-Silent == (Select \/ Resume \/ Discard) /\ UNCHANGED <<tid, l>>
+Silent == (Select \/ Resume \/ Discard \/ DiscardUnstarted) /\ UNCHANGED <<tid, l>>
 ParseQuiet == Parse /\ yielded' = yielded /\ UNCHANGED <<tid, l>>
 Logged ==
   /\ l <= Len(Traces[tid])
